@@ -52,7 +52,12 @@ def history_stream(tier, rng, removal, classes=(0, 1), exhaustive_len=None, n_ra
     for i in range(n):
         d = rng.choice(classes)
         ids = id_schemes[(i // 3) % len(id_schemes)] if i % 3 == 0 else "int"
-        yield hist_case(d, removal, gen.random_history(rng), ids=ids, src="rand")
+        h = gen.random_history(rng)
+        if i % 29 == 7:
+            h = gen.shift_times(h, 2 ** 55 + 3)       # timestamps no float can tell apart
+        elif i % 29 == 11:
+            h = gen.shift_times(h, -1000)             # an all-negative time axis
+        yield hist_case(d, removal, h, ids=ids, src="rand")
     if tier != "quick":
         # length-3/4 single-pair sample beyond the exhaustive bound
         ops = gen.single_pair_ops(tmax=5, lens=(1, 2, 3, 4), empty=True)
